@@ -38,3 +38,11 @@ package types
 //@   modifies nothing
 //@   ensures [cat] extEq(bytes(result), cat(bytes(global(PrevStateValidatorsPowerKey)), bytes(address))) && bytes(result) == cat(bytes(global(PrevStateValidatorsPowerKey)), bytes(address))
 //@   ensures [fresh] result != nil && (len(address) > 0 ==> fresh(result))
+
+// record key of a node: the one-byte prefix 0x21 followed by the node's address
+//@ global AllValidatorsKey len(value) == 1 && cap(value) == 1 && value[0] == 33
+//@ func KeyForValByAllVals
+//@   props C21
+//@   modifies nothing
+//@   ensures [cat] extEq(bytes(result), cat(bytes(global(AllValidatorsKey)), bytes(addr))) && bytes(result) == cat(bytes(global(AllValidatorsKey)), bytes(addr))
+//@   ensures [fresh] result != nil && (len(addr) > 0 ==> fresh(result))
